@@ -100,6 +100,8 @@ def run_catalogue(spec, out):
                 ops = prefix + [['bad', kind, a, pos], ['gc', 1],
                                 ['apply', 1, 2, 3, 1], ['sift']]
                 hist = dict(cfg=cfg, ops=ops)
+                if spec.get('shutdown'):
+                    hist['shutdown'] = a
                 w = W.run_and_collect(hist, out, shrink=False)
                 cnt += 1
                 if w is not None:
